@@ -142,6 +142,11 @@ func verifRunPan(sim *verifPanSim, isCompare bool) *verifPanRun {
 	os.WriteFile(path.Join(codeDir, "router.info"), []byte(`{"model":"PAN-OS","name_list":["router"],"ip_list":["10.1.13.33"]}`), 0644)
 	os.WriteFile(path.Join(r.base, "credentials"), []byte("* admin "+verifPassword+"\n"), 0644)
 	cfg := &program.Config{BaseDir: r.base, Timeout: 2, LoginTimeout: 2, CheckBanner: regexp.MustCompile("NetSPoC")}
+	logArg := r.logDir
+	if vf.Bool("run without log directory") {
+		logArg = ""
+		vf.Cover("run without log directory")
+	}
 	if vf.Symbolic() {
 		os.Setenv("SIMULATE_ROUTER", "https://sim.example")
 		vf.Hook("http.do", sim.respond)
@@ -164,7 +169,7 @@ func verifRunPan(sim *verifPanSim, isCompare bool) *verifPanRun {
 	}
 	r.stderr = vf.CaptureStderr(func() {
 		r.stdout = vf.CaptureStdout(func() {
-			r.rc = ApproveOrCompare(isCompare, path.Join(codeDir, "router"), cfg, r.logDir, "", false)
+			r.rc = ApproveOrCompare(isCompare, path.Join(codeDir, "router"), cfg, logArg, "", false)
 		})
 	})
 	return r
@@ -251,7 +256,7 @@ func VerifDialoguePAN() {
 // VerifUnmanagedPAN: C06 for PAN-OS: vsys marker, HA state, hostname.
 func VerifUnmanagedPAN() {
 	sim := &verifPanSim{faultPos: -1}
-	sim.hostname = vf.FixString(vf.Pick("reportedHostname", []string{"router", "other"}))
+	sim.hostname = vf.FixString(vf.Pick("reportedHostname", verifHostnames))
 	sim.displayName = vf.FixString(vf.Pick("vsysDisplayName", []string{"vsys1 netspoc", "NetSPoC managed", "customer vsys"}))
 	sim.ha = vf.FixString(vf.Pick("haState", []string{"", "active", "passive", "active-primary", "active-secondary", "suspended"}))
 	r := verifRunPan(sim, false)
